@@ -402,3 +402,37 @@ def zero_spell_hold(rng, spec):
                 col[j] = 0.0
         spec["prices"][t] = col
     scripted_hold(rng, spec)
+
+
+def custom_price_trades(rng, spec):
+    """securities with multipliers other than 1, bid/offer data present, a price-dependent commission, and on every date a mix of
+    market trades and trades at a custom price (above / below the market), on a root and inside a sub-strategy"""
+    T = max(spec["T"], 4)
+    spec["T"] = T
+    spec["tree"] = {"name": "root", "fi": False, "algos": False, "kids": [
+        {"sec": "a", "kind": 0, "mult": rng.choice([10.0, 100.0, 0.5]), "cfi": True},
+        {"sec": "b", "kind": 0, "mult": 1.0, "cfi": True},
+        {"name": "s00", "fi": False, "algos": False, "kids": [{"sec": "c", "kind": 0, "mult": rng.choice([10.0, 50.0]), "cfi": True}]}]}
+    for k in ("coupons", "cost_long", "cost_short"):
+        spec[k] = None
+    for t in TICKERS:
+        p = float(rng.randint(20, 120))
+        spec["prices"][t] = [p + rng.randint(-4, 4) for _ in range(T)]
+    spec["bidoffer"] = {t: [rng.choice([0.0, 0.25, 0.5, 1.0])] * T for t in TICKERS}
+    spec["comm"] = rng.choice([[3, 0, 0.001], [3, 0, 0.015625], [5, 1.0, 0.001], [5, 2.0, 0.0078125]])
+    spec["capital"] = 1000000.0
+    ops = [{"op": "adjust", "path": [], "amount": spec["capital"], "update": True, "flow": True}, {"op": "update", "d": 0},
+           {"op": "allocate", "path": [2], "amount": 200000.0, "update": True}]
+    secs = [([0], "a"), ([1], "b"), ([2, 0], "c")]
+    for d in range(T):
+        ops.append({"op": "update", "d": d})
+        for _ in range(rng.randint(2, 5)):
+            path, t = rng.choice(secs)
+            q = float(rng.choice([-1, 1]) * rng.randint(1, 30))
+            px = None
+            if rng.random() < 0.6:
+                px = spec["prices"][t][d] + rng.choice([-2.0, -0.5, 0.25, 1.0, 3.0])
+            ops.append({"op": "transact", "path": path, "q": q, "update": rng.random() < 0.5, "price": px})
+        ops.append({"op": "update", "d": d})
+    ops.append({"op": "observe", "on": "real"})
+    spec["ops"] = ops
